@@ -99,9 +99,9 @@ func render(r resource.Resource) string {
 // held is an object the caller still holds.
 type held struct {
 	name     string
-	readOnly bool // watch event objects are shared with the store by design: observed, never mutated
-	res  resource.Resource  // nil for bare metadata copies
-	md   *resource.Metadata // always set
+	readOnly bool               // watch event objects are shared with the store by design: observed, never mutated
+	res      resource.Resource  // nil for bare metadata copies
+	md       *resource.Metadata // always set
 }
 
 func (h *held) render() string {
@@ -469,10 +469,11 @@ func build(tier string) []explore.Scenario {
 
 func main() {
 	explore.Main(explore.Config{
-		Property:  "C19",
-		Technique: "exhaustive enumeration of API call sequences (run to exact quiescence on the controlled scheduler) x every held object x every public mutation, with the store re-read after each mutation",
-		Rule:      "every sequence up to the length over 12 API calls, 3 flavours (inmem, runtime cache, remote); after it every held object x 18 mutations; non-trivial = distinct sequences",
-		Assume:    []string{"mutations go through the public metadata/spec API (KV.Raw() map writes are not part of it)", "deterministic default schedule"},
-		Extra:     map[string]any{"explanation": "states = API sequences executed; transitions = scheduler steps; evaluations = (held object, mutation) pairs checked against a full re-read of the store"},
+		Property:     "C19",
+		RequireShims: true,
+		Technique:    "exhaustive enumeration of API call sequences (run to exact quiescence on the controlled scheduler) x every held object x every public mutation, with the store re-read after each mutation",
+		Rule:         "every sequence up to the length over 12 API calls, 3 flavours (inmem, runtime cache, remote); after it every held object x 18 mutations; non-trivial = distinct sequences",
+		Assume:       []string{"mutations go through the public metadata/spec API (KV.Raw() map writes are not part of it)", "deterministic default schedule"},
+		Extra:        map[string]any{"explanation": "states = API sequences executed; transitions = scheduler steps; evaluations = (held object, mutation) pairs checked against a full re-read of the store"},
 	}, build)
 }
